@@ -34,6 +34,31 @@ def view_method(ex, view, name, args, kw, node):
                 raise SymRaise("IDNotFound", w)
             return VSet(z3.Select(d.fields["v"], k))
         raise Unsupported("nodes.memberships() without an id")
+    if view.which == "nodes" and name == "neighbors" and net.kind != "DH":
+        # IDView.neighbors(idx, s=1) on the node view: ids sharing an edge with idx, idx itself excluded
+        if len(args) > 1 or "s" in kw:
+            raise Unsupported("neighbors with s != 1")
+        k = ex.key_term(args[0], w)
+        dn, de = net.f["_node"], net.f["_edge"]
+        if not ex.branch(z3.Select(dn.keys, k)):
+            raise SymRaise("IDNotFound", w)
+        Nk = z3.Select(dn.fields["v"], k)
+        # an edge listed by a node but absent from _edge raises IDNotFound inside the comprehension
+        ok = c.forall(["id"], lambda e: z3.Implies(z3.Select(Nk, e), z3.Select(de.keys, e)))
+        if not ex.branch(ok):
+            raise SymRaise("IDNotFound", w)
+        return VSet(c.setof(lambda i: z3.And(i != k, c.exists(["id"], lambda e: z3.And(z3.Select(Nk, e), z3.Select(z3.Select(de.fields["v"], e), i))))))
+    if view.which == "nodes" and name == "isolates" and not args and not kw:
+        # NodeView.isolates(): the nodes without memberships (a view = an iterable of those ids)
+        dn = net.f["_node"]
+        t = c.fresh_id("isolates")
+        if net.kind == "DH":
+            iso = c.setof(lambda n: z3.And(z3.Select(dn.keys, n), z3.Select(dn.fields["in"], n) == c.EMPTY, z3.Select(dn.fields["out"], n) == c.EMPTY))
+        else:
+            iso = c.setof(lambda n: z3.And(z3.Select(dn.keys, n), z3.Select(dn.fields["v"], n) == c.EMPTY))
+        ex.assume(z3.And(c.iterable(t), z3.Not(c.one_shot(t)), c.elems_hashable(t), c.content(t) == iso, t != c.NONE,
+                         z3.Not(c.intlike(t)), z3.Not(c.is_str(t)), z3.Not(c.is_dict(t))))
+        return VVal(t)
     if name == "items":
         return VDictItems(net.f["_node_attr" if view.which == "nodes" else "_edge_attr"])
     raise Unsupported("view method %s.%s" % (view.which, name))
